@@ -22,6 +22,11 @@ pub fn run(id: &str, tier: &str) -> i32 {
             let d = hist_def(id).unwrap();
             let mut rep = crate::engine::Report::new(d.id, tier, d.level);
             common::run_hist(&d, tier, &mut rep);
+            if id == "C04" {
+                let (v, n, m) = fsprops::odd_info_sweep();
+                rep.add_violations(v);
+                rep.cov("volumes_with_odd_information_sector_pointers", serde_json::json!({"cases": n, "mounted": m, "variants": fsprops::ODD_INFO_VARIANTS}));
+            }
             if id == "C09" || id == "C10" {
                 let ld = std::sync::atomic::Ordering::Relaxed;
                 rep.cov("evaluations", serde_json::json!(fsprops::CRASH_IMAGES.load(ld)));
@@ -123,6 +128,7 @@ pub fn replay(path: &str) -> i32 {
 
 fn replay_input(id: &str, _inp: &serde_json::Value) -> i32 {
     match id {
+        "C04" => fsprops::replay_input_c04(_inp),
         "C06" => dirprops::replay_input_c06(_inp),
         "C12" | "C13" | "C14" => sdprops::replay_input(_inp),
         "C15" => c15::replay_input(_inp),
